@@ -50,7 +50,22 @@ def _fmt_summary(ex, func, args, kwargs, so, node):
 def check(ctx):
     cls = ctx.P.public_class("skchange.anomaly_detectors", "StatThresholdAnomaliser")
     ctx.guard("C17 SCENARIO", cls.name, lambda: check_all(ctx, cls), cls.module.relpath)
+    ctx.guard("C17.c ONE-INTERVAL-PER-SEGMENT", "formatter", lambda: shared_formatter(ctx))
     ctx.expect_min("C17", len([o for o in ctx.obs if o.status == "HOLDS"]), 8)
+
+
+def shared_formatter(ctx):
+    """_predict hands its list of flagged segments to CollectiveAnomalyDetector._format_sparse_output (summarised in the
+    scenario above): the formatter must report them one interval each - no filtering, merging or reordering.  The C04.a
+    FORMATTER obligations of that formatter, re-run under the C17 id."""
+    from . import c04
+
+    base = ctx.P.cls("skchange.anomaly_detectors.base.CollectiveAnomalyDetector")
+    before = len(ctx.obs)
+    c04.check_formatter(ctx, base)
+    for o in ctx.obs[before:]:
+        if "FORMATTER" in o.rule:
+            o.rule = f"C17.c ONE-INTERVAL-PER-SEGMENT ({o.rule})"
 
 
 def check_all(ctx, cls):
